@@ -114,17 +114,35 @@ deriving DecidableEq, Repr
 def MAX_BLOOM_FILTER_SIZE : Nat := Spec.Bloom.MAX_BLOOM_FILTER_SIZE
 def MAX_HASH_FUNCS : Nat := Spec.Bloom.MAX_HASH_FUNCS
 
-/-- `int(min(x, MAX_BLOOM_FILTER_SIZE * 8) / 8)` where `x ≥ 0` stands for the float value of
+/-- `int(v)` of a float value `v`: truncation toward zero -/
+def truncInt (v : Rat) : Int := if 0 ≤ v then v.floor else -((-v).floor)
+
+/-- not a Python exception: a negative hash-function count (possible only for `nElements < 0`, outside
+    the property's quantifier) is not representable in `Filter`; the model refuses instead of
+    pretending it is 0 -/
+def outOfModel : Exc := .py "OutOfModelDomain:negative-nHashFuncs"
+
+/-- `bytearray(int(min(x, MAX_BLOOM_FILTER_SIZE * 8) / 8))` where `x` stands for the float value of
     `-1 / LN2SQUARED * nElements * math.log(nFPRate)` (division by 8 is exact in binary floating
-    point, `int()` truncates) -/
-def sizeBytes (x : Rat) : Nat := ((min x ((MAX_BLOOM_FILTER_SIZE * 8 : Nat) : Rat)) / 8).floor.toNat
+    point); `bytearray` of a negative count raises ValueError -/
+def sizeBytes (x : Rat) : Res Nat :=
+  let n := truncInt ((min x ((MAX_BLOOM_FILTER_SIZE * 8 : Nat) : Rat)) / 8)
+  if n < 0 then .error .valueerr else .ok n.toNat
 
-/-- `int(min(y, MAX_HASH_FUNCS))` where `y ≥ 0` stands for `len(vData) * 8 / nElements * LN2` -/
-def hashFuncs (y : Rat) : Nat := (min y ((MAX_HASH_FUNCS : Nat) : Rat)).floor.toNat
+/-- `int(min(y, MAX_HASH_FUNCS))` where `y` stands for `len(vData) * 8 / nElements * LN2` -/
+def hashFuncs (y : Rat) : Res Nat :=
+  let n := truncInt (min y ((MAX_HASH_FUNCS : Nat) : Rat))
+  if n < 0 then .error outOfModel else .ok n.toNat
 
-/-- `CBloomFilter.__init__` with the two float expressions as parameters -/
-def create (x y : Rat) (nTweak nFlags : Nat) : Filter :=
-  { vData := List.replicate (sizeBytes x) 0, nHashFuncs := hashFuncs y, nTweak := nTweak, nFlags := nFlags }
+/-- `CBloomFilter.__init__`.  The two float expressions are parameters: `x` is the outcome of the first
+    (`math.log` raises ValueError for a rate ≤ 0), `y` the outcome of the second as a function of
+    `len(self.vData)` (ZeroDivisionError for `nElements = 0`); their exceptions propagate. -/
+def create (x : Res Rat) (y : Nat → Res Rat) (nTweak nFlags : Nat) : Res Filter := do
+  let xv ← x
+  let n ← sizeBytes xv
+  let yv ← y n
+  let k ← hashFuncs yv
+  pure { vData := List.replicate n 0, nHashFuncs := k, nTweak := nTweak, nFlags := nFlags }
 
 /-- `bloom_hash` -/
 def bloomHash (f : Filter) (nHashNum : Nat) (e : Bytes) : Res Nat := do
